@@ -52,3 +52,9 @@ func canUnmarshal(m interface{}) bool {
 // GocvEncoderOffset exposes the write cursor to harnesses in other packages (ghost helper
 // that exists only in the verification overlay).
 func GocvEncoderOffset(e *Encoder) int { return e.offset }
+
+// GocvKeyAt: the minimally encoded key of (num, wt) sits at p[o:] (what DecodeTag followed by
+// Skip needs; exported for harnesses over generated code).
+func GocvKeyAt(p []byte, o int, num int, wt WireType) bool {
+	return o >= 0 && keyBefore(p, o+keyLen(num, wt), num, wt)
+}
